@@ -3,7 +3,7 @@
 # uses a scratch worktree of /repo (/tmp/wt_verify) and a scratch copy of /verif (/tmp/verif_mut).
 # usage: test_mutant.sh <seed-id> <Cnn> [tier]
 id=$1; prop=$2; tier=${3:-quick}
-wt=/tmp/wt_verify; vm=/tmp/verif_mut
+wt=${WT:-/tmp/wt_verify}; vm=${VM:-/tmp/verif_mut}
 [ -d $wt ] || git -C /repo worktree add -q $wt HEAD
 cd $wt && git checkout -q -- . && git clean -fdq && git apply /verif/seeded/$id/patch.diff || exit 2
 mkdir -p $vm && rsync -a --delete --exclude .git --exclude evidence /verif/ $vm/
